@@ -345,7 +345,7 @@ func HandleCreate(deps ServerDeps, conn net.Conn, tag string, parts []string, st
 	}
 
 	// Parse mailbox name (could be quoted)
-	mailboxName := strings.Trim(parts[2], "\"")
+	mailboxName := utils.ParseQuotedString(parts[2])
 
 	// Remove trailing hierarchy separator if present
 	// According to RFC 3501, the name created is without the trailing hierarchy delimiter
@@ -449,7 +449,7 @@ func HandleDelete(deps ServerDeps, conn net.Conn, tag string, parts []string, st
 	}
 
 	// Parse mailbox name (could be quoted)
-	mailboxName := strings.Trim(parts[2], "\"")
+	mailboxName := utils.ParseQuotedString(parts[2])
 
 	// Validate mailbox name
 	if mailboxName == "" {
@@ -502,8 +502,8 @@ func HandleRename(deps ServerDeps, conn net.Conn, tag string, parts []string, st
 	}
 
 	// Parse mailbox names (could be quoted)
-	oldName := strings.Trim(parts[2], "\"")
-	newName := strings.Trim(parts[3], "\"")
+	oldName := utils.ParseQuotedString(parts[2])
+	newName := utils.ParseQuotedString(parts[3])
 
 	// Validate mailbox names
 	if oldName == "" || newName == "" {
@@ -556,12 +556,8 @@ func HandleSubscribe(deps ServerDeps, conn net.Conn, tag string, parts []string,
 		return
 	}
 
-	mailboxName := parts[2]
-
 	// Remove quotes if present
-	if len(mailboxName) >= 2 && mailboxName[0] == '"' && mailboxName[len(mailboxName)-1] == '"' {
-		mailboxName = mailboxName[1 : len(mailboxName)-1]
-	}
+	mailboxName := utils.ParseQuotedString(parts[2])
 
 	// Validate mailbox name
 	if mailboxName == "" {
@@ -601,12 +597,8 @@ func HandleUnsubscribe(deps ServerDeps, conn net.Conn, tag string, parts []strin
 		return
 	}
 
-	mailboxName := parts[2]
-
 	// Remove quotes if present
-	if len(mailboxName) >= 2 && mailboxName[0] == '"' && mailboxName[len(mailboxName)-1] == '"' {
-		mailboxName = mailboxName[1 : len(mailboxName)-1]
-	}
+	mailboxName := utils.ParseQuotedString(parts[2])
 
 	// Validate mailbox name
 	if mailboxName == "" {
